@@ -289,6 +289,12 @@ func (d *Dialer[T]) Dial(ctx context.Context, network, addr string, tc *tls.Conf
 		case err, ok := <-errChan:
 			if !ok {
 				if len(errs) == 0 {
+					// When the context is done the attempts' errors are
+					// dropped, not sent: this is a cancellation, not an
+					// empty target list.
+					if err := ctx.Err(); err != nil {
+						return nilConn, err
+					}
 					return nilConn, errors.New("no address")
 				}
 				return nilConn, errors.Join(errs...)
